@@ -3,6 +3,7 @@ as the generator emits them), plus the direct oracle of the property on CPython.
 from __future__ import annotations
 
 import enum
+import types
 
 from . import common
 from .common import Ctx
@@ -40,6 +41,27 @@ def snapshot(E):
             sorted(E.__members__))
 
 
+class _IntSub(int):
+    pass
+
+
+_OTHER = None
+
+
+def _int_kinds(E, n, v):
+    global _OTHER
+    out = [("instance of the same enum", v), ("int subclass", _IntSub(n))]
+    if n in (0, 1):
+        out.append(("bool", bool(n)))
+    if _OTHER is None:
+        _OTHER = make_enum(types.SimpleNamespace(ProtocolEnumMeta=type(E)), "OtherEnumZq", [("A", 1), ("B", 4)])
+    try:
+        out.append(("value of another protocol enum", _OTHER(n)))
+    except Exception:  # noqa: BLE001 - judged on its own enum, not here
+        pass
+    return out
+
+
 def oracle_call(E, members, n: int) -> tuple[str | None, str]:
     """C14 on one construction; returns (why-it-fails or None, canonical answer)"""
     declared = {o: nm for nm, o in members}
@@ -55,6 +77,17 @@ def oracle_call(E, members, n: int) -> tuple[str | None, str]:
         return f"{E.__name__}({n}): comparing/hashing/converting raised {type(ex).__name__}", "?"
     if not same:
         return f"{E.__name__}({n}) does not compare/hash/convert as {n} (int {int(v)}, value {v.value!r})", "?"
+    # the same integer handed over as another kind of int: the instance just built (what code normalising a field with
+    # `Kind(x)` does when x was read from the wire), an int subclass, a bool, a member/instance of a different enum
+    for kind, x in _int_kinds(E, n, v):
+        try:
+            w = E(x)
+            ok = isinstance(w, E) and w == n and hash(w) == hash(n) and int(w) == n and w.value == n and \
+                w.name == (declared[n] if n in declared else f"Unrecognized({n})") and (n not in declared or w is getattr(E, declared[n]))
+        except Exception as ex:  # noqa: BLE001
+            return f"{E.__name__}(<{kind} {n}>) raised {type(ex).__name__}: {ex}", "err"
+        if not ok:
+            return f"{E.__name__}(<{kind} {n}>) = {w!r} does not behave as {E.__name__}({n})", "?"
     if n in declared:
         m = getattr(E, declared[n])
         if v is not m or E(n) is not v:
